@@ -218,6 +218,12 @@ def owner():
     D, N = 'self->__base_0.m_buffer.data', 'self->__base_0.m_buffer.size'
     SZ = 'self->__base_0.m_size'
     NEWWF = '%s == CEILW(%s) && (%s %% XV_W == 0 || (%s[%s - 1] >> (%s %% XV_W)) == 0)' % (N, SZ, SZ, D, N, SZ)
+    # callers (C11) need to know that the block array is a valid object afterwards: a new one, or the one it was
+    FRESHD = '__CPROVER_is_fresh(%s, %s * sizeof(xv_blk))' % (D, N)
+    # (pointer_in_range_dfcc with equal bounds is 'same pointer' in a form that keeps the verifier's points-to information when assumed)
+    SAMEORFRESH = '(%s == __CPROVER_old(%s) ? __CPROVER_pointer_in_range_dfcc(__CPROVER_old(%s), %s, __CPROVER_old(%s)) : %s)' % (N, N, D, D, D, FRESHD)
+    NEWWF_F = '%s == CEILW(%s) && %s && (%s %% XV_W == 0 || (%s[%s - 1] >> (%s %% XV_W)) == 0)' % (N, SZ, FRESHD, SZ, D, N, SZ)
+    NEWWF_S = '%s == CEILW(%s) && %s && (%s %% XV_W == 0 || (%s[%s - 1] >> (%s %% XV_W)) == 0)' % (N, SZ, SAMEORFRESH, SZ, D, N, SZ)
     def C(name, text):
         o.append('#define XV_CONTRACT_bs__%s \\\n  %s' % (name, ' \\\n  '.join(text)))
     OWN = '__CPROVER_is_fresh(self, sizeof(*self)) && WF_bsb%s' % B   # WF_bsb includes freshness of the base == the object itself
@@ -225,14 +231,14 @@ def owner():
     LET = '__CPROVER_requires(xv_g < %s ==> xv_a0 == BIT_bsb(%s, xv_g))' % (SZ, B)
     FR = '__CPROVER_assigns(*self, __CPROVER_object_whole(%s))' % D
     C('ctor__ul_b_rxv_empty', ['__CPROVER_requires(__CPROVER_is_fresh(self, sizeof(*self)) && count <= XV_MAXBITS)',
-                               '__CPROVER_ensures(%s == count && %s)' % (SZ, NEWWF),
+                               '__CPROVER_ensures(%s == count && %s)' % (SZ, NEWWF_F),
                                '__CPROVER_ensures(xv_g < count ==> BIT_bsb(%s, xv_g) == (unsigned long)b)' % B, '__CPROVER_assigns(*self)'])
     C('ctor__ul_rxv_empty', ['__CPROVER_requires(__CPROVER_is_fresh(self, sizeof(*self)) && count <= XV_MAXBITS)',
                              '__CPROVER_ensures(%s == count && %s)' % (SZ, NEWWF),
                              '__CPROVER_ensures(xv_g < count ==> BIT_bsb(%s, xv_g) == 0)' % B, '__CPROVER_assigns(*self)'])
     C('ctor__v', ['__CPROVER_requires(__CPROVER_is_fresh(self, sizeof(*self)))', '__CPROVER_ensures(%s == 0 && %s == 0)' % (SZ, N), '__CPROVER_assigns(*self)'])
     C('resize__ul_b', ['__CPROVER_requires(%s && asize <= XV_MAXBITS) %s' % (VAL, LET),
-                       '__CPROVER_ensures(%s == asize && %s)' % (SZ, NEWWF),
+                       '__CPROVER_ensures(%s == asize && %s)' % (SZ, NEWWF_S),
                        '/* existing bits preserved, new bits carry the given value */',
                        '__CPROVER_ensures(xv_g < asize ==> BIT_bsb(%s, xv_g) == (xv_g < __CPROVER_old(%s) ? xv_a0 : (unsigned long)b))' % (B, SZ), FR])
     C('push_back__b', ['__CPROVER_requires(%s && %s < XV_MAXBITS) %s' % (VAL, SZ, LET),
